@@ -180,7 +180,7 @@ def check(case) -> Dict[str, Any]:
             try:
                 conn.flush()
             except sim.WouldBlock:
-                return {"rejected": "blocked:before"}
+                raise Failure(f"blocks:{before['api']}", case, f"{before['api']} (issued first): the program waits forever although its responses were offered")
     outcomes_arr = None
     is_ctx = api in ("create_context", "recv_context")
     if kw.get("sequential") and not is_ctx:
@@ -224,9 +224,12 @@ def check(case) -> Dict[str, Any]:
     try:
         conn.flush()
     except sim.WouldBlock:
-        # the program waits for a response that cannot be applied (qubit-id assignment, C09/C10's subject):
-        # inconclusive for this property
-        return {"rejected": f"blocked:{api}:{case['hardware']}"}
+        # on single-communication-qubit hardware a state-preparation / context request for >= 2 pairs waits for a response that
+        # cannot be applied (qubit-id assignment, C09/C10's subject and open finding): inconclusive for this property.
+        # Anywhere else a wait that never ends means the responses did not reach the request.
+        if case["hardware"] == "nv" and (number >= 2 or (before and before["number"] >= 2)) and (api.startswith("recv_rsp") or is_ctx or kw.get("sequential")):
+            return {"rejected": f"blocked:{api}:{case['hardware']}"}
+        raise Failure(f"blocks:{api}", case, f"{api}: the program waits forever although all {number} responses were offered (requests outstanding: create {dict(ctrl._executor._epr_create_requests)}, recv {dict(ctrl._executor._epr_recv_requests)})")
     except Exception as e:
         raise Failure(f"flush-raises:{api}", case, f"flush after {api} raised {type(e).__name__}: {str(e).splitlines()[0][:200]}")
     if stack.plan:
